@@ -796,3 +796,10 @@ class SequencerC10(SequencerSuite):
     evals = {'mismatches': 'mismatches', 'spec_violations': 'failing_c10',
              'known:c03-noresource-reentrancy': 'known_noresource_c10',
              'known:reentrant-next-keyerror': 'known_keyerror'}
+
+
+class SequencerC16(SequencerSuite):
+    """ C16 on the Starter / Stopper: no internal error whatever the history (the known re-entrancy KeyError apart) """
+    name = 'sequencer'
+    evals = {'mismatches': 'mismatches', 'spec_violations': 'other_crashes',
+             'known:reentrant-next-keyerror': 'known_keyerror'}
